@@ -613,3 +613,62 @@ variant("exc-yajilin-guard-order", "C17", YAJ, """        dir = data[idx]
             return None
         if dir == "0":
             return 2, ["??"]""")
+
+# ---- C19 ---------------------------------------------------------------------------------------
+DRND = "cspuz/generator/deterministic_random.py"
+SRND = "cspuz/generator/srandom.py"
+GCORE = "cspuz/generator/core.py"
+GBUILD = "cspuz/generator/builder.py"
+GSEG = "cspuz/generator/segmentation.py"
+mutant("rng-import-random-builder", "C19", GBUILD, "import copy\nimport cspuz.generator.srandom as srandom", "import copy\nimport random\nimport cspuz.generator.srandom as srandom", "RNG-1")
+mutant("rng-segmentation-random", ["C19", "C18"], GSEG, ["import cspuz.generator.srandom as srandom\n", "cand = srandom.choice(cands)"], ["import random\nimport cspuz.generator.srandom as srandom\n", "cand = random.choice(cands)"], "RNG-1", "the original defect")
+mutant("rng-choice-dispatch", "C19", SRND, "        return drandom.choice(cand)", "        return pyrandom.choice(cand)", "RNG-2")
+mutant("rng-shuffle-inverted", "C19", SRND, """    if _use_deterministic_prng:
+        drandom.shuffle(seq)
+    else:
+        pyrandom.shuffle(seq)""", """    if not _use_deterministic_prng:
+        drandom.shuffle(seq)
+    else:
+        pyrandom.shuffle(seq)""", "RNG-2")
+mutant("rng-randint-no-offset", "C19", DRND, "            return a + x % w", "            return x % w", "RNG-3", "the original defect")
+mutant("rng-randint-no-rejection", "C19", DRND, "    limit = _XORSHIFT_DOMAIN_SIZE - _XORSHIFT_DOMAIN_SIZE % w", "    limit = _XORSHIFT_DOMAIN_SIZE", "RNG-3")
+mutant("rng-randint-width", "C19", DRND, "    w = b - a + 1\n", "    w = b - a\n    if w == 0:\n        return a\n", "RNG-3")
+mutant("rng-randint-le", "C19", DRND, "        if x < limit:", "        if x <= limit:", "RNG-3")
+mutant("rng-mask-dropped", "C19", DRND, "t = (self._x ^ (self._x << 11)) & 0xFFFFFFFF", "t = self._x ^ (self._x << 11)", "RNG-4")
+mutant("rng-domain-31", "C19", DRND, "_XORSHIFT_DOMAIN_SIZE = 1 << 32", "_XORSHIFT_DOMAIN_SIZE = 1 << 31", "RNG-4")
+mutant("rng-shuffle-biased", "C19", DRND, "        j = randint(0, i)\n", "        j = randint(0, len(seq) - 1)\n", "RNG-6")
+mutant("rng-shuffle-skip", "C19", DRND, "    for i in range(1, len(seq)):\n        j = randint(0, i)", "    for i in range(2, len(seq)):\n        j = randint(0, i)", "RNG-6")
+mutant("rng-choice-range", "C19", DRND, "    idx = randint(0, len(cand) - 1)", "    idx = randint(1, len(cand) - 1) if len(cand) > 1 else 0", "RNG-6")
+mutant("rng-random-divisor", "C19", DRND, "    return float(_rng.next()) / _XORSHIFT_DOMAIN_SIZE", "    return float(_rng.next()) / (_XORSHIFT_DOMAIN_SIZE - 1)", "RNG-7")
+mutant("gen-return-before-sat", "C19", GCORE, """            is_sat, *answer = solver(next_problem)
+            if not is_sat:
+                continue
+
+            if uniqueness(*answer):""", """            is_sat, *answer = solver(next_problem)
+
+            if uniqueness(*answer):""", "GEN-1")
+mutant("gen-return-current", "C19", GCORE, """                    print("generated", file=sys.stderr)
+                return next_problem""", """                    print("generated", file=sys.stderr)
+                return problem""", "GEN-1")
+mutant("gen-uniqueness-skipped", "C19", GCORE, "            if uniqueness(*answer):", "            if uniqueness(*answer) or current_score is None:", "GEN-1")
+mutant("gen-symmetry-partner", "C19", GBUILD, """                if self.symmetry:
+                    y2 = self.height - 1 - y
+                    x2 = self.width - 1 - x
+                    if (y2 - y, x2 - x) in self.disallow_adjacent:""", """                if self.symmetry:
+                    y2 = self.height - 1 - y
+                    x2 = x
+                    if (y2 - y, x2 - x) in self.disallow_adjacent:""", "GEN-2")
+mutant("gen-value-out-of-choice", "C19", GBUILD, """                        if v != current[y][x]:
+                            ret.append([(y, x, v)])
+        return ret""", """                        if v != current[y][x]:
+                            ret.append([(y, x, v + 1)])
+        return ret""", "GEN-2")
+mutant("gen-adjacent-ignored", "C19", GBUILD, """                        and current[y2][x2] != self.default
+                    ):
+                        default_only = True""", """                        and current[y2][x2] != self.default
+                    ):
+                        default_only = False""", "GEN-2")
+mutant("gen-shallow-copy", "C19", GBUILD, "        ret = copy.deepcopy(previous)\n        for y, x, v in update:", "        ret = copy.copy(previous)\n        for y, x, v in update:", "PUR-2")
+variant("rng-randint-parenthesised", "C19", DRND, "            return a + x % w", "            return (x % w) + a")
+variant("rng-from-import", "C19", GBUILD, "import cspuz.generator.srandom as srandom", "from cspuz.generator import srandom")
+variant("gen-hoisted-uniqueness", "C19", GCORE, "            if uniqueness(*answer):", "            is_unique = uniqueness(*answer)\n            if is_unique:")
